@@ -3,7 +3,7 @@ from __future__ import annotations
 
 import ast
 
-from ..analysis import Analysis, fmt_conj
+from ..analysis import Analysis, fmt_conj, _and_all
 from ..cfg import branch_of, is_back, is_exc
 from ..model import AnalysisError, NOFOLD, norm, walk_local
 from .runtask import RTE, spawn_calls
@@ -109,12 +109,40 @@ def rule_oh(A: Analysis, rep):
     OH = "utils.output_handler.OutputHandler."
     pa = A.fn(OH + "popen_arg")
     g = A.cfg(pa, "plain")
+    # evaluate the guards of every return under each member of the RecordType enum (a decision table over a finite domain)
+    import re as _re
+    rt_cls = A.prog.cls("conductor.utils.output_handler.RecordType")
+    members = [norm(t) for st in rt_cls.node.body if isinstance(st, ast.Assign) for t in st.targets if isinstance(t, ast.Name)]
     table = {}
-    for n in g.nodes:
-        if n.kind == "stmt" and isinstance(n.ast, ast.Return):
-            for c in A.path_guards(g, g.entry, n, pa):
-                kinds = [a for a, p in c if p and a.startswith("eq(") and "RecordType." in a]
-                table[norm(n.ast.value) if n.ast.value is not None else "None"] = sorted(k.split("RecordType.")[1].split(",")[0].rstrip(")") for k in kinds)
+    pat = _re.compile(r"^eq\((?:self\._type,RecordType\.(\w+)|RecordType\.(\w+),self\._type)\)$")
+    for n in list(g.nodes) + [g.exit]:
+        if (n.kind == "stmt" and isinstance(n.ast, ast.Return)) or n is g.exit:
+            if n is g.exit:
+                # falling off the end returns None as well
+                val = "None"
+                guards = [c for (m0, l0) in g.exit.pred if l0 != "ret" and not is_exc(l0) for c in (A.path_guards(g, g.entry, m0, pa) if m0.kind != "test" else
+                          _and_all([A.path_guards(g, g.entry, m0, pa), A.dnf(m0.ast, branch_of(l0) == "T", pa)]))]
+            else:
+                val = norm(n.ast.value) if n.ast.value is not None else "None"
+                guards = A.path_guards(g, g.entry, n, pa)
+            for m_ in members:
+                for c in guards:
+                    sat = True
+                    for a_, p_ in c:
+                        mm = pat.match(a_)
+                        if mm is None:
+                            sat = None
+                            break
+                        if ((mm.group(1) or mm.group(2)) == m_) != p_:
+                            sat = False
+                            break
+                    if sat is None:
+                        table.setdefault("?", []).append(a_)
+                    elif sat:
+                        table.setdefault(val, [])
+                        if m_ not in table[val]:
+                            table[val].append(m_)
+    table = {k: sorted(v) for k, v in table.items()}
     want = {"None": ["NotRecorded"], "subprocess.PIPE": ["Teed"], "self._file": ["OnlyLogged"]}
     rep.check(table == want, "OH2", "popen_arg mode table", pa.node, "NotRecorded→None (inherit), Teed→PIPE, OnlyLogged→the log file", "popen_arg returns %s" % table)
     opens = [c for c in walk_local(pa.node) if isinstance(c, ast.Call) and norm(c.func) == "open"]
@@ -252,15 +280,37 @@ def rule_js1(A: Analysis, rep):
     # planner: experiments record output and serialise args; commands do not
     from .planner import PlannerFacts
     F = PlannerFacts(A)
+    # decided per task type: the flags that reach a RunTaskExecutable construction on the paths taken for that type
+    seen_types = set()
     for (cn, var, call, cls) in F.constructions:
         if not cls.endswith("RunTaskExecutable"):
             continue
-        gs = A.path_guards(F.g, F.w.pop_node(), cn, F.fi)
-        is_exp = any(any("RunExperiment" in a and p for a, p in c) for c in gs)
         ro, sa = A.kw(call, "record_output"), A.kw(call, "serialize_args_options")
-        want_v = "True" if is_exp else "False"
-        rep.check(ro is not None and sa is not None and norm(ro) == want_v and norm(sa) == want_v, "JS1", "record flags for %s" % ("run_experiment" if is_exp else "run_command"), call,
-                  "", "RunTaskExecutable(record_output=%s, serialize_args_options=%s) for %s" % (norm(ro) if ro else "?", norm(sa) if sa else "?", "an experiment" if is_exp else "a command"))
+        if ro is None or sa is None:
+            rep.bad("JS1", "record flags", call, "RunTaskExecutable(...) without explicit record_output / serialize_args_options")
+            continue
+        is_type = lambda a: a.startswith("t(isinstance(%s.task, " % F.lt)
+        for kind, want_v in (("RunExperiment", "True"), ("RunCommand", "False")):
+            def on_type(c):
+                # the path is one taken for `kind`: no isinstance atom contradicts it
+                for (a_, p_) in c:
+                    if is_type(a_):
+                        t_ = a_[len("t(isinstance(%s.task, " % F.lt):-2]
+                        if (t_ == kind) != p_ and t_ in ("RunExperiment", "RunCommand"):
+                            return False
+                return True
+            vals = {}
+            for key, e_ in (("record_output", ro), ("serialize_args_options", sa)):
+                rv = A.rvalues(F.fi, e_, cn, F.g, start=F.w.pop_node(), keep=is_type, depth=4)
+                vals[key] = sorted({v for c, v in rv if on_type(c)})
+            if not vals["record_output"] and not vals["serialize_args_options"]:
+                continue   # this construction is not reached for that type
+            seen_types.add(kind)
+            rep.check(vals["record_output"] == [want_v] and vals["serialize_args_options"] == [want_v], "JS1",
+                      "record flags for %s" % ("run_experiment" if kind == "RunExperiment" else "run_command"), call,
+                      "", "RunTaskExecutable(record_output=%s, serialize_args_options=%s) for %s" % (vals["record_output"], vals["serialize_args_options"],
+                                                                                                   "an experiment" if kind == "RunExperiment" else "a command"))
+    rep.check(seen_types == {"RunExperiment", "RunCommand"}, "JS1", "both run task types are lowered to RunTaskExecutable", F.fi.node, "", "lowered types: %s" % sorted(seen_types), deep=False)
     init = A.fn(RTE + "__init__")
     st = {norm(s.targets[0]): norm(s.value) for s in walk_local(init.node) if isinstance(s, ast.Assign)}
     rep.check(st.get("self._record_output") == "record_output" and st.get("self._serialize_args_options") == "serialize_args_options", "JS1", "flags stored", init.node, "", "flags stored as %s" % {k: st.get(k) for k in ("self._record_output", "self._serialize_args_options")}, deep=False)
